@@ -436,6 +436,14 @@ func dependsOn(v ssa.Value, pred func(ssa.Value) bool) bool {
 		if !ok {
 			return false
 		}
+		// a local used by address (array literal behind a slice, struct literal): depends on what is stored into it
+		if a, ok := v.(*ssa.Alloc); ok {
+			for _, st := range storesInto(a) {
+				if rec(st.Val) {
+					return true
+				}
+			}
+		}
 		// loads of locals (or of their fields/elements): depend on everything stored into the local
 		if u, ok := v.(*ssa.UnOp); ok && u.Op == token.MUL {
 			if a := rootAlloc(u.X); a != nil {
